@@ -89,6 +89,16 @@ def specs_for(tier, seed):
                     hooks.append(h)
                 add("three names three types", id_sets()["three names three types"], hooks=hooks, hooks_fail=not allow,
                     meta={"family": "challenge hook ends badly", "type": t, "exit": code, "signal": bool(extra), "allow_failure": allow})
+    # two accounts in one daemon, each with its own key: every proof is made with the key of the account the order belongs to
+    for kts in (("ecdsa_p256", "ecdsa_p384"), ("rsa2048", "ecdsa_p256"), ("ed25519", "ecdsa_p256")):
+        ids3 = id_sets()["three names three types"]
+        certs2 = [simple_cert("m%da" % len(specs), ids=ids3, account="accA"), simple_cert("m%db" % len(specs), ids=[dict(i, dns="x-" + i["dns"]) for i in ids3], account="accB")]
+        sp = dict(tag="C05/s%04d" % len(specs), certs=certs2, attempts=1, endpoints={"A": {"ca": {}}},
+                  accounts=[{"name": "accA", "contacts": [{"mailto": "a@example.org"}], "key_type": kts[0]}, {"name": "accB", "contacts": [{"mailto": "b@example.org"}], "key_type": kts[1]}],
+                  meta={"family": "two accounts in one daemon", "key_types": list(kts), "set": "three names three types", "ca": {}})
+        sp = flowcheck.prepare(sp)
+        sp["meta"]["healthy"] = {cid: True for cid in sp["meta"]["flow"]}
+        specs.append(sp)
     # SEVERAL hooks of the challenge type (deploy, then reload): a failure of any of them that is not allowed to fail stops the call -
     # what the last one returns does not make up for it
     for t in ("http-01", "dns-01", "tls-alpn-01"):
